@@ -99,6 +99,10 @@ pub struct Case {
   /// explicit schedule (from `S` lines); None = use strategy
   pub schedule: Option<Vec<usize>>,
   pub budget: usize,
+  /// replay default refinement (search aid): preferred thread order, see shim `Config::prefer`
+  pub prefer: Vec<usize>,
+  /// log every visible action (`A`/`L` lines)
+  pub atomics: bool,
 }
 
 impl Case {
@@ -107,7 +111,7 @@ impl Case {
   }
 
   pub fn header(&self) -> String {
-    format!(
+    let mut h = format!(
       "#case {} flavour={} cap={} threads={} strategy={} seed={} mode={}",
       self.id,
       self.flavour,
@@ -116,7 +120,14 @@ impl Case {
       self.strategy,
       self.seed,
       self.mode
-    )
+    );
+    if self.budget != 20_000 {
+      h.push_str(&format!(" budget={}", self.budget));
+    }
+    if self.atomics {
+      h.push_str(" atomics=1");
+    }
+    h
   }
 
   pub fn program_lines(&self) -> Vec<String> {
@@ -150,6 +161,8 @@ pub fn parse_cases(text: &str) -> Result<Vec<Case>, String> {
         programs: Vec::new(),
         schedule: None,
         budget: 20_000,
+        prefer: Vec::new(),
+        atomics: false,
       };
       for kv in &ws[2..] {
         if let Some((k, v)) = kv.split_once('=') {
@@ -160,6 +173,8 @@ pub fn parse_cases(text: &str) -> Result<Vec<Case>, String> {
             "seed" => c.seed = v.parse().map_err(|_| format!("line {}: bad seed", ln + 1))?,
             "mode" => c.mode = v.to_string(),
             "budget" => c.budget = v.parse().map_err(|_| format!("line {}: bad budget", ln + 1))?,
+            "atomics" => c.atomics = v == "1" || v == "true",
+            "prefer" => c.prefer = v.split(',').filter_map(|x| x.parse().ok()).collect(),
             _ => {}
           }
         }
